@@ -310,3 +310,63 @@ Proof.
   split; [unfold over_alphabet; repeat constructor; tauto|].
   split; [discriminate|]. split; reflexivity.
 Qed.
+
+(* ---- shape: one row per strand, one entry per position ---- *)
+Fixpoint rowlens (l : list sym) (cur : nat) : list nat :=
+  match l with
+  | [] => [cur]
+  | SB :: r => cur :: rowlens r 0
+  | _ :: r => rowlens r (S cur)
+  end.
+
+Fixpoint elens (es : list entry) (cur : nat) : list nat :=
+  match es with
+  | [] => [cur]
+  | EB :: r => cur :: elens r 0
+  | EP _ :: r => elens r (S cur)
+  end.
+
+Lemma appE_lens es : forall pc,
+  map (@length _) (fst (appE pc es) ++ [snd (appE pc es)])
+  = map (@length _) (fst pc) ++ elens es (length (snd pc)).
+Proof.
+  induction es as [|[|v] r IH]; intros pc; cbn [appE elens].
+  - rewrite map_app. reflexivity.
+  - rewrite IH. cbn [fst snd length]. rewrite map_app, <- app_assoc. reflexivity.
+  - rewrite IH. cbn [fst snd]. rewrite app_length. cbn [length]. rewrite Nat.add_1_r. reflexivity.
+Qed.
+
+Lemma elens_esyms es : forall p cur, elens es cur = rowlens (esyms es p) cur.
+Proof.
+  induction es as [|[|v] r IH]; intros p cur; cbn [elens esyms rowlens].
+  - reflexivity.
+  - f_equal. apply IH.
+  - unfold sym_at. destruct v as [q|]; [destruct (loc_ltb p q)|]; cbn [rowlens]; apply IH.
+Qed.
+
+Lemma tab_of_shape d : map (@length _) (tab_of d) = rowlens (render d) 0.
+Proof.
+  unfold tab_of. cbn zeta. rewrite appE_lens. cbn [fst snd map app length].
+  rewrite (elens_esyms _ (0, 0)), esyms_ents. reflexivity.
+Qed.
+
+Lemma split_aux_lens brk ign s : forall cur,
+  map (@length _) (split_aux brk s cur) = rowlens (map (classify brk ign) s) (length cur).
+Proof.
+  induction s as [|c r IH]; intros cur; cbn [split_aux map rowlens].
+  - cbn. rewrite rev_length. reflexivity.
+  - unfold classify at 1. destruct (N.eqb c brk).
+    + cbn [map rowlens]. rewrite rev_length. f_equal. apply (IH []).
+    + rewrite (IH (c :: cur)). cbn [length].
+      destruct (N.eqb c cO); [reflexivity|]. destruct (N.eqb c cC); [reflexivity|].
+      destruct (existsb (N.eqb c) ign); reflexivity.
+Qed.
+
+Theorem mpt_shape brk ign s t :
+  make_pair_table brk ign s = Ok t ->
+  map (@length _) t = map (@length _) (make_strand_table_str brk s).
+Proof.
+  intros H. destruct (mpt_ok_tree _ _ _ _ H) as (d & Hs & ->).
+  rewrite tab_of_shape, <- Hs. unfold make_strand_table_str.
+  rewrite (split_aux_lens brk ign s []). reflexivity.
+Qed.
